@@ -226,6 +226,25 @@ def run_case(c, collect=True):
                 got = r.values("chr1", q["s"], q["e"], bins=q["bins"], summary=q["summary"], exact=q["exact"], missing=q["missing"], oob=q["oob"])
                 got = [float(x) for x in got]
                 msg = judge(lay, q, got)
+                # metamorphic: which bins count as out of bounds must not depend on the fill values. When
+                # oob equals missing (a single call cannot tell the two apart) ask again with another oob.
+                if msg is None and q["bins"] is not None and same(q["oob"], q["missing"]) and not math.isnan(q["oob"]) \
+                        and (q["s"] < 0 or q["e"] > lay["size"]):
+                    # two different probe values: a statistic that happens to equal one of them cannot equal both
+                    oob2, oob3 = q["oob"] + 1234.5, q["oob"] - 98765.25
+                    got2 = [float(x) for x in r.values("chr1", q["s"], q["e"], bins=q["bins"], summary=q["summary"], exact=q["exact"], missing=q["missing"], oob=oob2)]
+                    got3 = [float(x) for x in r.values("chr1", q["s"], q["e"], bins=q["bins"], summary=q["summary"], exact=q["exact"], missing=q["missing"], oob=oob3)]
+                    label("oob-equals-missing-rechecked")
+                    for i, (a, b) in enumerate(zip(got, got2)):
+                        if same(b, oob2) and same(got3[i], oob3):
+                            if not same(a, q["oob"]):
+                                msg = "values(chr1, %d, %d, bins=%r, summary=%r, exact=%r, missing=%r, oob=%r): bin %d = %r, but with oob=%r the same bin is out of bounds (%r): the fill values change which bins are out of bounds" % (
+                                    q["s"], q["e"], q["bins"], q["summary"], q["exact"], q["missing"], q["oob"], i, a, oob2, b)
+                                break
+                        elif not same(b, oob2) and not same(a, b):
+                            msg = "values(chr1, %d, %d, bins=%r, summary=%r, exact=%r, missing=%r): bin %d = %r with oob=%r but %r with oob=%r" % (
+                                q["s"], q["e"], q["bins"], q["summary"], q["exact"], q["missing"], i, a, q["oob"], b, oob2)
+                            break
             except BaseException as ex:  # pyo3 PanicException derives from BaseException
                 if type(ex).__name__ != "PanicException" and not isinstance(ex, Exception):
                     raise
